@@ -480,6 +480,8 @@ func (req *Request) getDistributedResponse(ctx context.Context) (*Response, erro
 	var waitGroup sync.WaitGroup
 	collectedDatasets := make(chan ResultSet, len(req.lmd.nodeAccessor.nodeBackends))
 	collectedFailedHashes := make(chan map[string]string, len(req.lmd.nodeAccessor.nodeBackends))
+	// number of matching rows regardless of limits, as every node counted them
+	collectedTotals := make(chan int, len(req.lmd.nodeAccessor.nodeBackends))
 	for nodeID, nodeBackends := range req.lmd.nodeAccessor.nodeBackends {
 		node := req.lmd.nodeAccessor.Node(nodeID)
 		// limit to requested backends if necessary
@@ -507,6 +509,9 @@ func (req *Request) getDistributedResponse(ctx context.Context) (*Response, erro
 			}
 			if res.result == nil {
 				res.SetResultData()
+			}
+			if res.rawResults != nil {
+				collectedTotals <- res.rawResults.Total
 			}
 			collectedDatasets <- res.result
 			collectedFailedHashes <- res.failed
@@ -551,6 +556,7 @@ func (req *Request) getDistributedResponse(ctx context.Context) (*Response, erro
 			}
 
 			// Collect data
+			collectedTotals <- int(interface2float64(hash["total_count"]))
 			collectedDatasets <- rows
 			collectedFailedHashes <- failedHashStrings
 		})
@@ -576,6 +582,14 @@ func (req *Request) getDistributedResponse(ctx context.Context) (*Response, erro
 	}
 
 	res := req.mergeDistributedResponse(collectedDatasets, collectedFailedHashes)
+
+	// the total of a data request is the sum of the nodes' totals, not the number of (limited) rows they sent
+	close(collectedTotals)
+	if len(req.Stats) == 0 {
+		for total := range collectedTotals {
+			res.resultTotal += total
+		}
+	}
 
 	// Process results
 	// This also applies sort/offset/limit settings
